@@ -35,11 +35,17 @@ inductive Dflt where
   | newList | newDict | newSet   -- TRAIT_{LIST,DICT,SET}_OBJECT_DEFAULT_VALUE: a fresh empty container
   deriving DecidableEq, Repr, Inhabited
 
+/-- `comparison_mode` of the trait (constants.py `ComparisonMode`). -/
+inductive Cmp where
+  | none | identity | equality
+  deriving DecidableEq, Repr, Inhabited
+
 structure Field where
   name : Name
   tagged : Bool           -- carries the metadata the `+tag` filter looks for
   dflt : Dflt
   val : Val
+  cmp : Cmp := .equality  -- the default comparison mode of every trait type used here
   deriving DecidableEq, Repr, Inhabited
 
 inductive Obj where
@@ -98,16 +104,31 @@ def fieldVal (h : Heap) (x : W) (n : Name) : Val :=
     | none => .unset
   | _ => .unset
 
+/-- comparison mode of trait `n` of object `o` (equality when there is no such trait) -/
+def fieldCmp (h : Heap) (o : Id) (n : Name) : Cmp :=
+  match h.get o with
+  | .inst fs => match findField fs n with
+    | some f => f.cmp
+    | none => .equality
+  | _ => .equality
+
+def eqLists (eqi : Id → Id → Bool) : List Id → List Id → Bool
+  | [], [] => true
+  | x :: xs, y :: ys => eqi x y && eqLists eqi xs ys
+  | _, _ => false
+
 /-- `old == new` as evaluated by `ctrait_prevent_event` (_has_traits_helpers.py:137):
-ints by value, instances by identity (HasTraits does not override `__eq__`),
-containers by contents. -/
-def valEq (h : Heap) : Val → Val → Bool
+ints by value; instances by identity or, when their class defines `__eq__`, by the
+PARAMETER `eqo` (`==` of user objects is data, DESIGN §4); containers by contents,
+item by item with the same `==`. -/
+def valEq (eqo : Id → Id → Bool) (h : Heap) : Val → Val → Bool
   | .ref i, .ref j =>
-    i == j ||
+    i == j || eqo i j ||
     (match h.get i, h.get j with
-     | .list a, .list b => a == b
-     | .dict a, .dict b => a.length == b.length && a.all (fun kv => b.contains kv)
-     | .set a, .set b => a.length == b.length && a.all (fun x => b.contains x)
+     | .list a, .list b => eqLists (fun x y => x == y || eqo x y) a b
+     | .dict a, .dict b => a.length == b.length &&
+         a.all (fun kv => b.any (fun kv' => kv.1 == kv'.1 && (kv.2 == kv'.2 || eqo kv.2 kv'.2)))
+     | .set a, .set b => a.length == b.length && a.all (fun x => b.any (fun y => x == y || eqo x y))
      | _, _ => false)
   | a, b => a == b
 
